@@ -64,6 +64,21 @@ def put_array(D, w, path, n, numtype='float64', bolabel='little', atom=(), src=(
     return f
 
 
+def complete_stub(stub, donor_factory):
+    """Harnesses build handles with symbolic cached extents through object.__new__ (the real __init__ would
+    read them from a concrete descriptor).  A changed /repo may cache more in __init__ than the pinned tree
+    does; whatever instance attribute the stub lacks is taken from a donor handle of the same class that
+    went through the real __init__ on a small concrete array in the same world."""
+    try:
+        donor = donor_factory()
+    except Exception:
+        return stub
+    for k, v in donor.__dict__.items():
+        if k not in stub.__dict__:
+            stub.__dict__[k] = v
+    return stub
+
+
 class DecodeError(Exception):
     pass
 
